@@ -302,6 +302,10 @@ func (matrix *SparseInt64Matrix) AsVector() Vector {
   return matrix.AsSparseInt64Vector()
 }
 func (matrix *SparseInt64Matrix) storageLocation() uintptr {
+  if matrix.values.Dim() == 0 {
+    // no storage to point into: the matrix header identifies an empty matrix
+    return uintptr(unsafe.Pointer(matrix))
+  }
   return uintptr(unsafe.Pointer(matrix.values.AT(0).ptr))
 }
 /* const interface
